@@ -1,11 +1,445 @@
 package main
 
+// random.go - seeded random scenarios and random WELL-FORMED statement programs, much longer than
+// TLC's bound: nested checkpoints, rollback to any outstanding checkpoint, unevict, evict-then-pipeline
+// of the same pod (same GPU, other GPU of the node, other node), convert, several statements per
+// session, commit with injected Bind / Evict failures. The generator is adaptive: the guards (what the
+// actions would be allowed to issue) are evaluated on the REAL session state; it predicts nothing.
+
 import (
+	"fmt"
+	"math/rand"
+
+	"github.com/NVIDIA/KAI-scheduler/pkg/scheduler/api/common_info"
+	"github.com/NVIDIA/KAI-scheduler/pkg/scheduler/api/node_info"
+	"github.com/NVIDIA/KAI-scheduler/pkg/scheduler/api/pod_info"
+	"github.com/NVIDIA/KAI-scheduler/pkg/scheduler/api/pod_status"
 	"github.com/NVIDIA/KAI-scheduler/pkg/scheduler/conf"
 
 	"verif/harness/internal/tracefmt"
 )
 
+const gpuMem = 100
+
+func randomCfg(rng *rand.Rand) *Cfg {
+	cfg := &Cfg{Nodes: map[string]NodeCfg{}, Queues: map[string]QueueCfg{}, Jobs: map[string]JobCfg{}, Pods: map[string]PodCfg{}}
+	for i := 0; i < 12; i++ {
+		cfg.Groups = append(cfg.Groups, fmt.Sprintf("g%d", i+1))
+	}
+	nn := 2 + rng.Intn(2)
+	type nstate struct {
+		freeGpu, freeCpu int
+		groups          map[string]int // group -> free memory
+	}
+	ns := map[string]*nstate{}
+	var nodeNames []string
+	for i := 0; i < nn; i++ {
+		name := fmt.Sprintf("n%d", i+1)
+		g := 1 + rng.Intn(4)
+		c := 4000 + 2000*rng.Intn(4)
+		cfg.Nodes[name] = NodeCfg{Gpu: g, Cpu: c}
+		ns[name] = &nstate{g, c, map[string]int{}}
+		nodeNames = append(nodeNames, name)
+	}
+	// queues: one or two top queues, 2-3 leaves
+	tops := []string{"d1"}
+	cfg.Queues["d1"] = QueueCfg{Parent: ""}
+	if rng.Intn(2) == 0 {
+		tops = append(tops, "d2")
+		cfg.Queues["d2"] = QueueCfg{Parent: ""}
+	}
+	var leaves []string
+	for i := 0; i < 2+rng.Intn(2); i++ {
+		q := fmt.Sprintf("q%d", i+1)
+		cfg.Queues[q] = QueueCfg{Parent: tops[rng.Intn(len(tops))]}
+		leaves = append(leaves, q)
+	}
+	nj := 3 + rng.Intn(3)
+	np := 0
+	nextGroup := 0
+	for j := 0; j < nj; j++ {
+		jn := fmt.Sprintf("j%d", j+1)
+		k := 1 + rng.Intn(3)
+		cfg.Jobs[jn] = JobCfg{Queue: leaves[rng.Intn(len(leaves))], NP: rng.Intn(2), Min: 1 + rng.Intn(k)}
+		kind := "whole"
+		if rng.Intn(5) < 2 {
+			kind = "frac"
+		}
+		for t := 0; t < k && np < 10; t++ {
+			np++
+			pn := fmt.Sprintf("p%02d", np)
+			pc := PodCfg{Job: jn, Kind: kind, Cpu: 500 * (1 + rng.Intn(2)), St: "Pending", Groups: []string{}, Ord: np}
+			if kind == "whole" {
+				pc.Gpu = 1
+				if rng.Intn(4) == 0 {
+					pc.Gpu = 2
+				}
+				pc.Gq = 1000 * pc.Gpu
+			} else {
+				pc.Mem = []int{25, 50, 50}[rng.Intn(3)]
+				pc.Gq = pc.Mem * 10
+			}
+			// place it?
+			if rng.Intn(10) < 6 {
+				n := nodeNames[rng.Intn(len(nodeNames))]
+				s := ns[n]
+				if s.freeCpu >= pc.Cpu {
+					if kind == "whole" && s.freeGpu >= pc.Gpu {
+						s.freeGpu -= pc.Gpu
+						s.freeCpu -= pc.Cpu
+						pc.St, pc.Node = "Running", n
+					} else if kind == "frac" {
+						placed := false
+						for _, g := range sortedKeys(s.groups) {
+							if s.groups[g] >= pc.Mem && rng.Intn(2) == 0 {
+								s.groups[g] -= pc.Mem
+								pc.Groups = []string{g}
+								placed = true
+								break
+							}
+						}
+						if !placed && s.freeGpu >= 1 && nextGroup < 6 {
+							g := cfg.Groups[nextGroup]
+							nextGroup++
+							s.freeGpu--
+							s.groups[g] = gpuMem - pc.Mem
+							pc.Groups = []string{g}
+							placed = true
+						}
+						if placed {
+							s.freeCpu -= pc.Cpu
+							pc.St, pc.Node = "Running", n
+						}
+					}
+					if pc.St == "Running" && rng.Intn(8) == 0 {
+						pc.St = "Releasing" // a pod that is really terminating
+					}
+				}
+			}
+			cfg.Pods[pn] = pc
+		}
+	}
+	return cfg
+}
+
+type gen struct {
+	r      *Runner
+	rng    *rand.Rand
+	clean  bool  // no GPU moves of evicted shared pods, no injected Evict failures
+	cps    []int // outstanding checkpoints of the current statement
+	used   map[string]bool
+	conv   bool
+	nfails int
+}
+
+func (g *gen) pod(p string) *pod_info.PodInfo { return g.r.task(p) }
+
+func (g *gen) node(n string) *node_info.NodeInfo { return g.r.ssn.ClusterInfo.Nodes[n] }
+
+func (g *gen) groupInUse(id string) bool {
+	if g.used[id] {
+		return true
+	}
+	for _, ni := range g.r.ssn.ClusterInfo.Nodes {
+		if ni.UsedSharedGPUsMemory[id] != 0 || ni.ReleasingSharedGPUsMemory[id] != 0 || ni.AllocatedSharedGPUsMemory[id] != 0 || ni.ReleasingSharedGPUs[id] {
+			return true
+		}
+		for _, pi := range ni.PodInfos {
+			for _, x := range pi.GPUGroups {
+				if x == id {
+					return true
+				}
+			}
+		}
+	}
+	for _, job := range g.r.ssn.ClusterInfo.PodGroupInfos {
+		for _, pi := range job.GetAllPodsMap() {
+			for _, x := range pi.GPUGroups {
+				if x == id {
+					return true
+				}
+			}
+		}
+	}
+	return false
+}
+
+func (g *gen) freshGroup() (string, bool) {
+	for _, id := range g.r.cfg.Groups {
+		if !g.groupInUse(id) {
+			return id, true
+		}
+	}
+	return "", false
+}
+
+// choices of (node, groups) where the caller would place pod p by Allocate (alloc) or Pipeline
+func (g *gen) placements(p string, alloc bool) [][2]any {
+	pc := g.r.cfg.Pods[p]
+	var out [][2]any
+	for _, n := range sortedKeys(g.r.cfg.Nodes) {
+		ni := g.node(n)
+		gpus, cpu := ni.Idle.GPUs(), ni.Idle.Cpu()
+		if !alloc {
+			gpus += ni.Releasing.GPUs()
+			cpu += ni.Releasing.Cpu()
+		}
+		if cpu < float64(pc.Cpu) {
+			continue
+		}
+		if pc.Kind == "whole" {
+			if gpus >= float64(pc.Gpu) {
+				out = append(out, [2]any{n, []string{}})
+			}
+			continue
+		}
+		for _, id := range g.r.cfg.Groups {
+			um, rm, am := ni.UsedSharedGPUsMemory[id], ni.ReleasingSharedGPUsMemory[id], ni.AllocatedSharedGPUsMemory[id]
+			if um <= 0 || am == rm {
+				continue
+			}
+			free := gpuMem - am
+			if !alloc {
+				free += rm
+			}
+			if free >= int64(pc.Mem) {
+				out = append(out, [2]any{n, []string{id}})
+			}
+		}
+		if gpus >= 1 {
+			if id, ok := g.freshGroup(); ok {
+				out = append(out, [2]any{n, []string{id}})
+			}
+		}
+	}
+	return out
+}
+
+func eqGroups(a, b []string) bool {
+	if len(a) != len(b) {
+		return false
+	}
+	for i := range a {
+		if a[i] != b[i] {
+			return false
+		}
+	}
+	return true
+}
+
+func (g *gen) shouldPipelineJob(j string) bool {
+	job := g.r.ssn.ClusterInfo.PodGroupInfos[common_info.PodGroupID(j)]
+	return job != nil && job.ShouldPipelineJob()
+}
+
+type cand struct {
+	w int
+	f func()
+}
+
+func (g *gen) newStatement() {
+	g.cps = nil
+	g.used = map[string]bool{}
+	g.conv = false
+}
+
+// one random enabled operation; false if nothing is enabled
+func (g *gen) step() bool {
+	r := g.r
+	ops := r.stmt.VerifOps()
+	nops := len(ops)
+	var cs []cand
+	add := func(w int, f func()) { cs = append(cs, cand{w, f}) }
+	shaped := true // allocate-action shaped statement (only allocate / pipeline entries)
+	hasAlloc := map[string]bool{}
+	for _, o := range ops {
+		if o.Name != "allocate" && o.Name != "pipeline" {
+			shaped = false
+		}
+		if o.Name == "allocate" && o.Task != nil {
+			hasAlloc[string(o.Task.Job)] = true
+		}
+	}
+	if !g.conv {
+		if len(g.cps) == 0 || g.cps[len(g.cps)-1] != nops {
+			add(2, func() {
+				r.Step(Label{N: "Checkpoint"})
+				g.cps = append(g.cps, len(r.stmt.VerifOps()))
+			})
+		}
+		for _, p := range sortedKeys(r.cfg.Pods) {
+			p := p
+			t := g.pod(p)
+			if t == nil {
+				return false
+			}
+			switch {
+			case t.Status == pod_status.Running:
+				add(4, func() { r.Step(Label{N: "Evict", P: p}) })
+			case t.Status == pod_status.Pending:
+				for _, pl := range g.placements(p, true) {
+					pl := pl
+					add(3, func() {
+						gs := pl[1].([]string)
+						for _, x := range gs {
+							g.used[x] = true
+						}
+						r.Step(Label{N: "Allocate", P: p, Node: pl[0].(string), G: gs})
+					})
+				}
+				for _, pl := range g.placements(p, false) {
+					pl := pl
+					add(2, func() {
+						gs := pl[1].([]string)
+						for _, x := range gs {
+							g.used[x] = true
+						}
+						r.Step(Label{N: "Pipeline", P: p, Node: pl[0].(string), G: gs, Upd: g.rng.Intn(2) == 0})
+					})
+				}
+			case t.Status == pod_status.Releasing && t.IsVirtualStatus:
+				evicted := false
+				for _, o := range ops {
+					if o.Name == "evict" && o.Valid && o.Task != nil && string(o.Task.UID) == p {
+						evicted = true
+					}
+				}
+				if evicted {
+					add(3, func() { r.Step(Label{N: "Unevict", P: p}) })
+					// back onto its own node / GPU: Pipeline turns into Unevict
+					home := ""
+					var homeGroups []string
+					for _, n := range sortedKeys(r.cfg.Nodes) {
+						for _, pi := range g.node(n).PodInfos {
+							if string(pi.UID) == p {
+								home, homeGroups = n, append([]string{}, pi.GPUGroups...)
+							}
+						}
+					}
+					if home != "" {
+						add(3, func() { r.Step(Label{N: "Pipeline", P: p, Node: home, G: homeGroups}) })
+					}
+					for _, pl := range g.placements(p, false) {
+						pl := pl
+						n, gs := pl[0].(string), pl[1].([]string)
+						if n == home && r.cfg.Pods[p].Kind == "frac" && !eqGroups(gs, homeGroups) && g.clean {
+							continue // GPU move of an evicted shared pod (finding F14)
+						}
+						add(3, func() {
+							for _, x := range gs {
+								g.used[x] = true
+							}
+							r.Step(Label{N: "Pipeline", P: p, Node: n, G: gs})
+						})
+					}
+				}
+			}
+		}
+		for _, cp := range g.cps {
+			cp := cp
+			if cp < nops {
+				add(5, func() {
+					r.Step(Label{N: "Rollback", Cp: cp})
+					k := 0
+					for _, c := range g.cps {
+						if c <= cp {
+							g.cps[k] = c
+							k++
+						}
+					}
+					g.cps = g.cps[:k]
+				})
+			}
+		}
+		if shaped {
+			for _, j := range sortedKeys(r.cfg.Jobs) {
+				j := j
+				if hasAlloc[j] && g.shouldPipelineJob(j) {
+					add(8, func() { r.Step(Label{N: "Convert", J: j}); g.conv = true })
+				}
+			}
+		}
+	}
+	if nops > 0 {
+		add(2, func() { r.Step(Label{N: "Discard"}); g.newStatement() })
+		add(2, func() {
+			// outcomes of the Cache calls Commit is going to make (valid entries in log order)
+			var oks []bool
+			for _, o := range ops {
+				if !o.Valid || o.Name == "undo" {
+					continue
+				}
+				ok := true
+				if g.nfails < 3 && g.rng.Intn(6) == 0 {
+					if o.Name == "allocate" || (o.Name == "evict" && !g.clean) {
+						ok = false
+						g.nfails++
+					}
+				}
+				oks = append(oks, ok)
+			}
+			r.Commit(oks)
+			g.newStatement()
+		})
+	}
+	if len(cs) == 0 {
+		return false
+	}
+	total := 0
+	for _, c := range cs {
+		total += c.w
+	}
+	x := g.rng.Intn(total)
+	for _, c := range cs {
+		if x < c.w {
+			c.f()
+			return true
+		}
+		x -= c.w
+	}
+	return true
+}
+
 func runRandom(config *conf.SchedulerConfiguration, tw *tracefmt.Writer, n int, seed int64, plen, nworlds int) int {
-	return 0
+	rng := rand.New(rand.NewSource(seed))
+	if nworlds > n {
+		nworlds = n
+	}
+	done := 0
+	for wi := 0; wi < nworlds; wi++ {
+		cfg := randomCfg(rng)
+		w, err := NewWorld(cfg, config)
+		if err != nil {
+			die("world: %v", err)
+		}
+		r := &Runner{w: w, cfg: cfg, out: tw}
+		cnt := n / nworlds
+		if wi < n%nworlds {
+			cnt++
+		}
+		for i := 0; i < cnt; i++ {
+			g := &gen{r: r, rng: rand.New(rand.NewSource(rng.Int63())), clean: i%2 == 0}
+			class := "rnd-full"
+			if g.clean {
+				class = "rnd-clean"
+			}
+			id := fmt.Sprintf("r%d-w%d-%d", seed, wi, i)
+			if err := r.Start(id, class); err != nil {
+				die("program %s: %v", id, err)
+			}
+			g.newStatement()
+			for k := 0; k < plen && r.err == nil; k++ {
+				if !g.step() {
+					break
+				}
+			}
+			r.Finish()
+			if r.err != nil {
+				die("program %s: %v", id, r.err)
+			}
+			done++
+		}
+		w.Close()
+	}
+	return done
 }
